@@ -34,6 +34,10 @@ fn walk_problems(t: &gluon::Thread, label: &str, out: &mut Vec<String>) -> usize
     rep.reached
 }
 
+thread_local! {
+    static IO_VM: std::cell::RefCell<Option<RootedThread>> = std::cell::RefCell::new(None);
+}
+
 const LAZY_MODULE_PREFIX: &str = "let { lazy, force } = import! std.lazy\n";
 
 impl Property for C05 {
@@ -55,6 +59,12 @@ impl Property for C05 {
         } else {
             PERIODS[t.pick(PERIODS.len())]
         };
+        if t.chance(1, 8) {
+            // channel queues and reference cells as the only owners of fresh heap values: an
+            // operation sequence of C17's language with run-time built strings as payload
+            let b = crate::props::c17::gen_traffic_block(t, tier.pick(24, 40));
+            return json!({"k": "chan", "block": b, "period": k});
+        }
         let lazy = t.chance(1, 5);
         let cfg = GenCfg {
             max_size: tier.pick(60, 110),
@@ -95,6 +105,37 @@ impl Property for C05 {
         let mut problems: Vec<String> = vec![];
         verif::GC_STRESS.store(0, Ordering::Relaxed);
         verif::QUARANTINE.store(false, Ordering::Relaxed);
+        if case["k"] == "chan" {
+            let b: crate::props::c17::Block = serde_json::from_value(case["block"].clone()).unwrap();
+            let src = crate::props::c17::program_text(&[b]);
+            let io_root = IO_VM.with(|c| c.borrow_mut().get_or_insert_with(|| gl::new_vm(Settings { run_io: true, ..Settings::default() })).clone());
+            let _ = gl::take_host_log();
+            let c0 = io_root.new_thread().expect("child");
+            let out0 = gl::run(&c0, "c05", &src);
+            let log0 = gl::take_host_log();
+            drop(c0);
+            verif::reset_counters();
+            verif::QUARANTINE.store(true, Ordering::Relaxed);
+            verif::GC_STRESS.store(k, Ordering::Relaxed);
+            let c1 = io_root.new_thread().expect("child");
+            let out1 = gl::run(&c1, "c05", &src);
+            verif::GC_STRESS.store(0, Ordering::Relaxed);
+            let log1 = gl::take_host_log();
+            let collections = verif::COLLECTIONS.load(Ordering::Relaxed);
+            let freed = verif::FREED.load(Ordering::Relaxed);
+            walk_problems(&c1, "child after the stressed run", &mut problems);
+            c1.collect();
+            io_root.collect();
+            walk_problems(&c1, "child after explicit collections", &mut problems);
+            walk_problems(&io_root, "root after explicit collections", &mut problems);
+            drop(c1);
+            verif::QUARANTINE.store(false, Ordering::Relaxed);
+            return json!({
+                "out0": serde_json::to_value(&out0).unwrap(), "log0": log_to_json(&log0),
+                "out1": serde_json::to_value(&out1).unwrap(), "log1": log_to_json(&log1),
+                "problems": problems, "collections": collections, "freed": freed, "src": src,
+            });
+        }
         if case["k"] == "lazy" {
             let name = format!("cellmod{}", ctx.cases_done);
             let module = case["module"].as_str().unwrap();
@@ -197,7 +238,17 @@ impl Property for C05 {
         let mut j = Judged::pass();
         let kind = case["k"].as_str().unwrap_or("prog");
         let k = case["period"].as_u64().unwrap_or(0);
-        let src = if kind == "lazy" { case["module"].as_str().unwrap_or("") } else { case["src"].as_str().unwrap_or("") };
+        let chan_src;
+        let src = if kind == "lazy" {
+            case["module"].as_str().unwrap_or("")
+        } else if kind == "chan" {
+            chan_src = serde_json::from_value::<crate::props::c17::Block>(case["block"].clone())
+                .map(|b| crate::props::c17::block_text(&b, 900_000))
+                .unwrap_or_default();
+            &chan_src
+        } else {
+            case["src"].as_str().unwrap_or("")
+        };
         let prog: Option<Program> = serde_json::from_value(case["prog"].clone()).ok();
         let feats = vec![format!("kind:{}", kind)];
         j.classes.push(format!("kind:{}", kind));
@@ -238,6 +289,43 @@ impl Property for C05 {
             }
         }
         let collections = v["collections"].as_u64().unwrap_or(0);
+        if kind == "chan" {
+            let b: crate::props::c17::Block = serde_json::from_value(case["block"].clone()).unwrap();
+            let out0: Outcome = serde_json::from_value(v["out0"].clone()).unwrap();
+            let out1: Outcome = serde_json::from_value(v["out1"].clone()).unwrap();
+            if is_front_end_failure(&out0).is_some() {
+                j.classes.push("rejected_by_front_end".into());
+                j.verdict = Verdict::Inconclusive("generated program rejected".into());
+                return j;
+            }
+            let mut expected = vec![('l', 900_000i64)];
+            expected.extend(crate::props::c17::model_log(&b));
+            let log0 = log_from_json(&v["log0"]);
+            let log1 = log_from_json(&v["log1"]);
+            // the unstressed run disagreeing with the model is C17's business; here only the
+            // dependence on collections is judged
+            if log0 == expected && (log1 != log0 || out0 != out1) {
+                j.verdict = Verdict::Violation(format!(
+                    "what is read back from channels / references depends on when collections run\n without stress: {} observations {:?}\n with stress:    {} observations {:?}\n{}",
+                    show_outcome(&out0), log0, show_outcome(&out1), log1, show()
+                ));
+                return j;
+            }
+            if log0 != expected {
+                j.classes.push("chan_model_mismatch_left_to_C17".into());
+            }
+            j.evals = 2;
+            for f in crate::props::c17::features(&b) {
+                if f == "queue_reuse" || f == "heap_payload" {
+                    j.classes.push(f);
+                }
+            }
+            if collections > 0 {
+                j.nontrivial.push(fnv(src.as_bytes()) ^ k);
+                j.classes.push("collected_during_run".into());
+            }
+            return j;
+        }
         if kind == "lazy" {
             let expect: Outcome = serde_json::from_value(v["expect"].clone()).unwrap();
             for key in ["first", "again_root", "again_child"] {
@@ -309,7 +397,7 @@ impl Property for C05 {
         j
     }
     fn rule(&self) -> String {
-        "generated allocating programs evaluated on child threads of one long-lived VM: once normally, once with a collection forced at every k-th allocation check (k in {1,2,5,13} quick, {1,2,3,5,8,13,50} thorough) with swept blocks poisoned and quarantined; outcomes and host calls must agree; after the run and after explicit collections of child and root a Trace-driven walk from the roots of the child and of the root must reach no swept object and no object of a foreign heap; the kept result handle must read the same after the collections; three identical runs + collect on one thread must not grow the heap. A fifth of the cases instead put the program into a module-level lazy value (root heap) that is forced from a stressed child thread, then from the root and from another child after the first child is dropped. Non-trivial = a collection actually ran during the stressed evaluation of a program that allocates (records, arrays, closures, ...); distinct by (source, k)".into()
+        "generated allocating programs evaluated on child threads of one long-lived VM: once normally, once with a collection forced at every k-th allocation check (k in {1,2,5,13} quick, {1,2,3,5,8,13,50} thorough) with swept blocks poisoned and quarantined; outcomes and host calls must agree; after the run and after explicit collections of child and root a Trace-driven walk from the roots of the child and of the root must reach no swept object and no object of a foreign heap; the kept result handle must read the same after the collections; three identical runs + collect on one thread must not grow the heap. An eighth of the cases are operation sequences over channels and references (C17's language) whose payloads are strings built at run time, so that a queue slot or a cell is the only owner of a fresh heap value while collections run; the stressed log must equal the unstressed one. A fifth of the rest instead put the program into a module-level lazy value (root heap) that is forced from a stressed child thread, then from the root and from another child after the first child is dropped. Non-trivial = a collection actually ran during the stressed evaluation of a program that allocates (records, arrays, closures, ...); distinct by (source, k)".into()
     }
     fn assumptions(&self) -> Vec<String> {
         vec![
@@ -319,6 +407,6 @@ impl Property for C05 {
         ]
     }
     fn describe(&self, case: &Value, obs: &Obs) -> Value {
-        json!({"kind": case["k"], "period": case["period"], "src": if case["k"] == "lazy" { case["module"].clone() } else { case["src"].clone() }, "obs": obs.to_json()})
+        json!({"kind": case["k"], "period": case["period"], "src": if case["k"] == "lazy" { case["module"].clone() } else if case["k"] == "chan" { case["block"].clone() } else { case["src"].clone() }, "obs": obs.to_json()})
     }
 }
